@@ -467,6 +467,45 @@ def run_internal(ctx, rng, spec, root):
                     attempt(ctx, dest, lambda: tool.main(QUIET + ['build', dest.path, '--lua', ok_src]),
                             {'injector': 'stream', 'entry': 'build', 'k': k, 'fmt': fmt, 'exists': exists, 'readonly': readonly},
                             'stream', fired=lambda: pt.stream is not None and pt.stream.failed)
+            # 4. a cart whose own token stream does not parse (an update_from_lines() that raised left its tokens behind), default writer
+            g_bad = new_game(rng)
+            try:
+                g_bad.lua.update_from_lines([b'x = = 1\n'])
+            except Exception:
+                ctx.feature('cart_with_unparseable_own_tokens')
+            attempt(ctx, dest, lambda: p8file.to_file(g_bad, dest.path),
+                    {'injector': 'unparseable_own_tokens', 'fmt': fmt, 'exists': exists, 'readonly': readonly}, 'unparseable_own_tokens',
+                    # (the .p8 writer is the one that re-parses what it is about to write: code that does not re-parse is one of the
+                    # failures the statement lists, so for .p8 the destination has to be as before whatever the call returns)
+                    fired=always if fmt == 'p8' else None)
+            # 5. build with a clean-up pass over code the parser does not read to its end / with an unusable option value
+            notend = os.path.join(root, 'notend_main.lua')
+            with open(notend, 'wb') as fh:
+                fh.write(b'x = 1 end\ny = 2\n')
+
+            def build_call(extra, src):
+                def call():
+                    try:
+                        r = tool.main(QUIET + ['build', dest.path, '--lua', src] + extra)
+                    except SystemExit as e:
+                        raise RuntimeError('exit %r' % (e.code,))
+                    if r:
+                        raise RuntimeError('build returned %r' % (r,))
+                return call
+            for extra, src in ((['--lua-format'], notend), (['--lua-minify'], notend), (['--lua-format'], ok_src),
+                               (['--lua-minify', '--keep-names-from-file', os.path.join(root, 'no_such_names.txt')], ok_src)):
+                attempt(ctx, dest, build_call(extra, src),
+                        {'injector': 'build_cleanup_pass', 'argv': extra, 'fmt': fmt, 'exists': exists, 'readonly': readonly},
+                        'build_cleanup_pass', fired=None)
+            # 6. the caller names the label source explicitly and the write fails
+            if fmt == 'png':
+                labelsrc = os.path.join(root, 'label_source.p8.png')
+                with open(labelsrc, 'wb') as fh:
+                    fh.write(rc.write_p8png(carts.random_regions(rng, 'zero')[0], rc.raw_code_area(b'l=1'), 8))
+                attempt(ctx, dest, lambda: p8file.to_file(g, dest.path, label_fname=labelsrc, lua_writer_cls=lua.LuaMinifyTokenWriter,
+                                                          lua_writer_args={'keep_names_from_file': os.path.join(root, 'no_such_names.txt')}),
+                        {'injector': 'explicit_label_then_failure', 'fmt': fmt, 'exists': exists, 'readonly': readonly},
+                        'explicit_label_then_failure', fired=always)
             ctx.feature('internal_failures_%s' % ('absent' if not exists else 'readonly' if readonly else 'zero_length' if empty else 'exists'))
             shutil.rmtree(dest.dir, ignore_errors=True)
     ctx.sample({'internal_failure_sources': ['oversize_code', 'missing_names_file', 'build_unparseable_source', 'build_missing_require']})
@@ -539,7 +578,7 @@ def gates(m, tier):
         if f.get(k, 0) < 1:
             missed.append('%s never driven' % k)
     for inj in ('stream', 'lua_writer', 'section', 'png_encoder', 'failpoint', 'unparseable_output', 'oversize_code', 'missing_names_file',
-                'build_unparseable_source', 'build_missing_require'):
+                'build_unparseable_source', 'build_missing_require', 'unparseable_own_tokens', 'explicit_label_then_failure'):
         if mon.get('faults_delivered:' + inj, 0) < 1:
             missed.append('no fault delivered by injector %s' % inj)
     for inj in ('stream', 'lua_writer', 'section', 'failpoint'):
